@@ -79,6 +79,22 @@ Proof.
     destruct (loop_spec _ _ _ _ _ _ _ H) as (new & Hn & Hap). exists t0, x, new. rewrite Eh in Hn. auto.
 Qed.
 
+(** ... which is [run_grid] of dt, T and the last recorded instant *)
+Definition last_time (st : @sys A) : option qty := match y_hist st with (tl, _) :: _ => Some tl | [] => None end.
+Corollary run_uses_run_grid ctl stop dt T st st' : run c load ctl stop dt T st = Ok st' ->
+  exists t0 ts new, run_grid dt T (last_time st) = Ok (t0, ts) /\ appended stop ts new /\
+    match y_hist st with
+    | [] => exists s0, y_hist st' = (new ++ [(t0, s0)])%list
+    | _ :: _ => y_hist st' = (new ++ y_hist st)%list
+    end.
+Proof.
+  intros H. destruct (run_spec _ _ _ _ _ _ H) as (t0 & x & new & Hx & Hap & Hh).
+  exists t0, (grid_from (qv t0) (qv dt) (qu dt) 1 (Z.to_nat (round_half_even x))), new.
+  unfold run_grid, last_time, bind. destruct (y_hist st) as [|[tl sl] h].
+  - destruct Hh as (-> & s0 & Hs & _). rewrite Hx. eauto.
+  - destruct Hh as (-> & Hs). rewrite Hx. auto.
+Qed.
+
 (** the grid itself *)
 Lemma grid_from_length (t0v dtv : num A) u k n : length (grid_from t0v dtv u k n) = n.
 Proof. revert k. induction n; intros k; cbn; auto. Qed.
